@@ -1,6 +1,7 @@
 import CCT.Model.Construct
 import CCT.Lemmas.TimeFmt
 import CCT.Props.C13
+import CCT.Props.C03
 /-!
 # C16 — metadata constructors emit only well-formed, faithful metadata
 
@@ -136,5 +137,61 @@ theorem buildRoot_wellformed (now0 now1 : DateTime) (ver rk rt kk kt : J) (ts ex
     (h : buildRootMd now0 now1 (.j ver) (.j rk) (.j rt) (.j kk) (.j kt) ts exp = .ok md) : checkDelegatingMdJ (wrapped md) = .ok () := by
   unfold buildRootMd at h
   exact build_ok_wellformed _ _ _ _ _ _ _ md h (ps! "root") rfl (by decide)
+
+/-! ## built roots chain: C16 meets C03 -/
+
+open CCT.C03
+
+/-- what the builder puts into root metadata: the rule `{pubkeys, threshold}` under the name `root` -/
+def ruleJ (keys thr : J) : J := .obj [(ps! "pubkeys", keys), (ps! "threshold", thr)]
+
+/-- **an envelope around built root metadata — with any well-formed signature entries — is well-formed root metadata** that declares the
+given root rule and the given version -/
+theorem built_root_envelope (now0 now1 : DateTime) (ver rk rt kk kt : J) (ts exp : Option PyVal) (md : J)
+    (h : buildRootMd now0 now1 (.j ver) (.j rk) (.j rt) (.j kk) (.j kt) ts exp = .ok md)
+    (env : J) (entries : List (PStr × J)) (hp : EnvParts env entries md) (hs : ∀ p ∈ entries, AnySigOK p.2) :
+    IsRootMd env ∧ rootRule env = ruleJ rk rt ∧ versionOf env = (asInt ver).getD 0 := by
+  have hw := buildRoot_wellformed now0 now1 ver rk rt kk kt ts exp md h
+  rw [C14.checker_iff_schema] at hw
+  obtain ⟨e0, s0, hp0, _, hso⟩ := hw
+  have hp1 : EnvParts (wrapped md) [] md :=
+    ⟨by simp [wrapped, isSignableJ, keysetEq, dictKeys, dictGet], _, rfl, by simp [dictGet], by simp [dictGet]⟩
+  obtain ⟨_, rfl⟩ := envParts_unique hp0 hp1
+  have hschema : Schema env := ⟨entries, s0, hp, hs, hso⟩
+  obtain ⟨rest, hmd, hty, hdel⟩ := buildRoot_delegates_both now0 now1 ver rk rt kk kt ts exp s0 h
+  obtain ⟨_, top, rfl, _, hsd⟩ := hp
+  have hsigned : signedOf (.obj top) = s0 := by simp [signedOf, jget, entryField, hsd]
+  have hdels : delegationsOf (.obj top) = [(ps! "root", ruleJ rk rt), (ps! "key_mgr", ruleJ kk kt)] := by
+    simp [delegationsOf, hsigned, hmd, jget, entryField, hdel, ruleJ]
+  have hrole : roleOf (.obj top) (ps! "root") = some (ruleJ rk rt) := by simp [roleOf, hdels, dictGet]
+  refine ⟨⟨hschema, ?_, by simp [hrole]⟩, by simp [rootRule, hrole], ?_⟩
+  · simp [typeOf, hsigned, hmd, jget, entryField, hty]
+  · unfold buildRootMd at h
+    obtain ⟨t, v, tsv, ex, d, _, e2, _, _, _, hmd', _⟩ := build_ok_fields _ _ _ _ _ _ _ _ h
+    cases e2
+    subst hmd'
+    simp [versionOf, hsigned, jget, entryField, dictGet]
+
+/-- **built root metadata, once threshold-signed, verifies as the successor of the previous built version and so can authorize its own
+successor**: roots `md₁` (version `v`) and `md₂` (version `v + 1`) from the builder; an envelope around `md₂` whose OpenPGP-mode signatures
+meet `md₁`'s root keys / threshold and `md₂`'s own is accepted by `verify_root` on the basis of (an envelope around) `md₁` -/
+theorem built_root_verifies_as_successor (C : CryptoFns)
+    (nowA nowB nowC nowD : DateTime) (v1 rk1 rt1 kk1 kt1 v2 rk2 rt2 kk2 kt2 : J) (ts1 ex1 ts2 ex2 : Option PyVal) (md1 md2 : J)
+    (h1 : buildRootMd nowA nowB (.j v1) (.j rk1) (.j rt1) (.j kk1) (.j kt1) ts1 ex1 = .ok md1)
+    (h2 : buildRootMd nowC nowD (.j v2) (.j rk2) (.j rt2) (.j kk2) (.j kt2) ts2 ex2 = .ok md2)
+    (hv : (asInt v2).getD 0 = (asInt v1).getD 0 + 1)
+    (env1 env2 : J) (e1 e2 : List (PStr × J)) (hp1 : EnvParts env1 e1 md1) (hs1 : ∀ p ∈ e1, AnySigOK p.2)
+    (hp2 : EnvParts env2 e2 md2) (hs2 : ∀ p ∈ e2, AnySigOK p.2)
+    (hold : RuleMet C true (ruleJ rk1 rt1) env2) (hnew : RuleMet C true (ruleJ rk2 rt2) env2) :
+    verifyRootJ C env1 env2 = .ok () := by
+  obtain ⟨r1, q1, w1⟩ := built_root_envelope nowA nowB v1 rk1 rt1 kk1 kt1 ts1 ex1 md1 h1 env1 e1 hp1 hs1
+  obtain ⟨r2, q2, w2⟩ := built_root_envelope nowC nowD v2 rk2 rt2 kk2 kt2 ts2 ex2 md2 h2 env2 e2 hp2 hs2
+  rw [verifyRoot_iff]
+  exact ⟨r1, r2, by rw [w1, w2, hv], by rw [q1]; exact hold, by rw [q2]; exact hnew⟩
+
+/-- the hypotheses are satisfiable: the builder does return root metadata for ordinary arguments -/
+example : (match buildRootMd ⟨2024, 5, 17, 10, 0, 0⟩ ⟨2024, 5, 17, 10, 0, 1⟩ (.j (.int 1))
+    (.j (.arr [.str (List.replicate 64 97)])) (.j (.int 1)) (.j (.arr [.str (List.replicate 64 98)])) (.j (.int 1)) none none with
+    | .ok _ => true | .error _ => false) = true := by decide +kernel
 
 end CCT.C16
